@@ -77,7 +77,7 @@ def main():
             if rc != 0:
                 first_err = next((l for l in (out + err).split("\n") if l.startswith("error:") and ".lean" in l), "")
                 tr = ""
-                for genf, what in (("Simd.lean", "SIMD"), ("Scalar.lean", "scalar"), ("ScalarFloat01.lean", "scalar"), ("ScalarUniformInt.lean", "scalar"), ("ScalarChaCha.lean", "scalar"), ("ScalarStandard.lean", "scalar"), ("ScalarDice.lean", "scalar"), ("ScalarReadMock.lean", "scalar"), ("FloatDistr.lean", "float"), ("FloatUniform.lean", "float"), ("FloatBernoulli.lean", "float"), ("FloatZiggurat.lean", "float"), ("EffectMultiple.lean", "pointer-effect"), ("EffectFill.lean", "pointer-effect"), ("EffectBlock.lean", "pointer-effect"), ("EffectBlockFill.lean", "pointer-effect"), ("EffectSystem.lean", "pointer-effect"), ("EffectShuffle.lean", "pointer-effect")):
+                for genf, what in (("Simd.lean", "SIMD"), ("Scalar.lean", "scalar"), ("ScalarFloat01.lean", "scalar"), ("ScalarUniformInt.lean", "scalar"), ("ScalarChaCha.lean", "scalar"), ("ScalarStandard.lean", "scalar"), ("ScalarDice.lean", "scalar"), ("ScalarReadMock.lean", "scalar"), ("FloatDistr.lean", "float"), ("FloatUniform.lean", "float"), ("FloatBernoulli.lean", "float"), ("FloatZiggurat.lean", "float"), ("FloatSingle.lean", "float"), ("EffectMultiple.lean", "pointer-effect"), ("EffectFill.lean", "pointer-effect"), ("EffectBlock.lean", "pointer-effect"), ("EffectBlockFill.lean", "pointer-effect"), ("EffectSystem.lean", "pointer-effect"), ("EffectShuffle.lean", "pointer-effect")):
                     gen = os.path.join(C.LEAN_DIR, "Urandom", "Generated", genf)
                     if os.path.exists(gen) and "could not translate" in open(gen).read() and genf[:-5] in (out + err):
                         tr += "; the %s translator could not read the current source: %s" % (what, open(gen).read().split("could not translate the current source:")[1].split("-/")[0].strip()[:300])
